@@ -388,6 +388,8 @@ class CallMixin:
         base = self.read_path(st, *lv) if lv is not None else self.ev(f.value, st)
         if isinstance(base, FuncVal):
             raise Unsupported(f"method {meth} on function")
+        if isinstance(base.ty, T.Opt) and isinstance(base.ty.inner, (T.Seq, T.Map, T.Set, T.Rec)):
+            base = self.unwrap(base, st, node)
         ty = base.ty
         key = ("method", ty.name, meth)
         if key in self.attr_models:
